@@ -6,6 +6,8 @@ import sys
 from io import StringIO
 from types import TracebackType
 
+from glotaran.utils import verif_trace as _vt
+
 
 class TeeContext:
     """Context manager that allows to work with string written to stdout.
@@ -27,6 +29,7 @@ class TeeContext:
         TeeContext
             Instance that can be read from.
         """
+        if _vt.ENABLED: _vt.emit("tee_enter", tee=str(id(self)), cur=str(id(sys.stdout)), captured=str(id(self.stdout)))  # noqa: E501,E701
         sys.stdout = self
         return self
 
@@ -38,6 +41,7 @@ class TeeContext:
     ) -> bool | None:
         """Restore ``sys.stdout`` on exiting the context."""
         sys.stdout = self.stdout
+        if _vt.ENABLED: _vt.emit("tee_exit", tee=str(id(self)), now=str(id(sys.stdout)), error=exc_type.__name__ if exc_type else "")  # noqa: E501,E701
         return None
 
     def write(self, data: str) -> None:
